@@ -52,6 +52,17 @@ def run(tier, R):
         I = lambda s, c=cfg: "%s:%s" % (c, s)
         chain(F, R, I)
         if not cfg.startswith("fiat"):
+            import codec_rules as CR
+            nd = 0
+            for inst, f_, ok, msg in CR.field_decode(F):
+                nd += 1
+                (R.ok if ok else R.viol)("C01.decode_bits", I(inst), msg, *(() if ok else (F.loc(f_),)))
+            R.floor("C01.decode_bits", I("field decoders decided bit by bit"), nd, 1)
+            ne = 0
+            for inst, f_, ok, msg in CR.field_encode(F):
+                ne += 1
+                (R.ok if ok else R.viol)("C01.encode_canonical", I(inst), msg, *(() if ok else (F.loc(f_),)))
+            R.floor("C01.encode_canonical", I("field encoders decided"), ne, 1)
             batch_invert(F, R, I)
             pmult(F, R, I)
             ranges(F, R, I, backend)
